@@ -1,7 +1,7 @@
 from __future__ import annotations
 
 import json
-from datetime import datetime, timedelta, timezone
+from datetime import MAXYEAR, MINYEAR, datetime, timedelta, timezone
 from importlib.util import find_spec
 from typing import Any, Iterator
 
@@ -59,6 +59,7 @@ class AvroWriter(AbstractWriter):
         self.schema = None
         self.parsed_schema = None
         self.writer = None
+        self.datetime_fields = []
         self.codec = "snappy" if find_spec("snappy") else "deflate"
 
     def write(self, r: record.Record) -> None:
@@ -67,9 +68,18 @@ class AvroWriter(AbstractWriter):
             self.schema = descriptor_to_schema(self.desc)
             self.parsed_schema = fastavro.parse_schema(self.schema)
             self.writer = fastavro.write.Writer(self.fp, self.parsed_schema, codec=self.codec)
+            self.datetime_fields = [
+                name for name, field in self.desc.get_all_fields().items() if field.typename == "datetime"
+            ]
 
         if self.desc != r._desc:
             raise Exception("Mixed record types")
+
+        for name in self.datetime_fields:
+            value = getattr(r, name)
+            if value is not None and value.year in (MINYEAR, MAXYEAR):
+                # timestamp-micros is read back as a datetime in UTC: refuse an instant that has none (OverflowError)
+                value.astimezone(timezone.utc)
 
         self.writer.write(r._packdict())
 
